@@ -25,6 +25,8 @@ import (
 	"0chain.net/miner"
 	"0chain.net/smartcontract/dbs/event"
 	"0chain.net/smartcontract/faucetsc"
+	"0chain.net/smartcontract/stakepool"
+	"0chain.net/smartcontract/stakepool/spenum"
 	"0chain.net/smartcontract/vestingsc"
 	"0chain.net/smartcontract/zcnsc"
 	sci "0chain.net/chaincore/smartcontractinterface"
@@ -104,7 +106,7 @@ type ScOp struct {
 // Script is the transaction input of the script contract.
 type Script struct {
 	Ops  []ScOp `json:"ops"`
-	Mode string `json:"mode"` // ok | fail (chargeable error) | internal (context error) | nodenotfound
+	Mode string `json:"mode"` // ok | fail (chargeable error) | internal (context error) | nodenotfound | flaky (block mode: context error on the first attempt only)
 	Out  int    `json:"out"`  // output token / error token
 }
 
@@ -193,9 +195,17 @@ func OutText(tok int) string { return fmt.Sprintf("verif-out-%d", tok) }
 
 var ErrScript = errors.New("script failed")
 
+var flakyArmed = map[string]bool{}
+
+// Trace, when non-nil, collects every execution of the script contract (block mode).
+var Trace *[]*Recorded
+
 func (s *scriptSC) Execute(t *transaction.Transaction, fn string, input []byte, b cstate.StateContextI) (string, error) {
 	rec := &Recorded{Called: true}
 	s.last = rec
+	if Trace != nil {
+		*Trace = append(*Trace, rec)
+	}
 	var scr Script
 	if err := json.Unmarshal(input, &scr); err != nil {
 		rec.Class = "chargeable"
@@ -262,6 +272,12 @@ func (s *scriptSC) Execute(t *transaction.Transaction, fn string, input []byte, 
 		}
 	}
 	switch scr.Mode {
+	case "flaky": // interrupted (SC context error) the first time it runs after being armed, fine afterwards
+		if flakyArmed[t.Hash] {
+			delete(flakyArmed, t.Hash)
+			rec.Class = "internal"
+			return "", transaction.ErrSmartContractContext
+		}
 	case "fail":
 		rec.Class = "chargeable"
 		return "", fmt.Errorf("%s", OutText(scr.Out))
@@ -498,7 +514,8 @@ func classify(err error) string {
 }
 
 // Apply runs one transaction through the real Chain.UpdateState.
-func (s *State) Apply(idx int, t Txn) (res Result) {
+// BuildTxn makes the real transaction of history item idx.
+func BuildTxn(idx int, t Txn) *transaction.Transaction {
 	txn := &transaction.Transaction{}
 	txn.Hash = TxnHash(idx)
 	txn.ClientID = AccountID(t.From)
@@ -521,6 +538,11 @@ func (s *State) Apply(idx int, t Txn) (res Result) {
 			txn.TransactionData = fmt.Sprintf(`{"name":%q,"input":%s}`, t.Fn, orNull(t.Input))
 		}
 	}
+	return txn
+}
+
+func (s *State) Apply(idx int, t Txn) (res Result) {
+	txn := BuildTxn(idx, t)
 	b := &block.Block{}
 	b.Round = t.Round
 	b.Hash = encryption.Hash(fmt.Sprintf("verif block %d", t.Round))
@@ -704,7 +726,24 @@ func (p *recSC) Execute(t *transaction.Transaction, fn string, input []byte, b c
 	return out, err
 }
 
-const RealOwner = "1746b06bb09f55ee01b33b5e2e055d6cc7a900cb57c0a3a5eaabb8a0e7745802"
+// RealOwner owns the real contracts in Real histories: client FirstUser.
+var RealOwner = AccountID(FirstUser)
+
+// Root is the current state root (hex).
+func (s *State) Root() string { return util.ToHex(s.MPT.GetRoot()) }
+
+// MinerGlobal reads the miner SC global node straight from the trie (JSON of the settings that
+// update_settings can touch).
+func (s *State) MinerGlobal() string {
+	gn := &minersc.GlobalNode{}
+	if err := s.MPT.GetNodeValue(util.Path(encryption.Hash(minersc.GlobalNodeKey)), gn); err != nil {
+		return "absent"
+	}
+	return fmt.Sprintf("max_n=%d min_n=%d max_delegates=%d cost=%v", gn.MaxN, gn.MinN, gn.MaxDelegates, gn.Cost)
+}
+
+// ProviderID: id of the miner (0) / sharder (1) installed in Real histories.
+func ProviderID(i int) string { return encryption.Hash(fmt.Sprintf("verif provider %d", i)) }
 
 // VestingPoolID is the id vestingsc gives the pool created by transaction idx.
 func VestingPoolID(idx int) string { return vestingsc.ADDRESS + ":vestingpool:" + TxnHash(idx) }
@@ -715,7 +754,37 @@ func NewRealState(env *Env, u *Universe, init []Acct) *State {
 	smartcontract.ContractMap[faucetsc.ADDRESS] = &recSC{faucetsc.NewFaucetSmartContract()}
 	smartcontract.ContractMap[vestingsc.ADDRESS] = &recSC{vestingsc.NewVestingSmartContract()}
 	smartcontract.ContractMap[zcnsc.ADDRESS] = &recSC{zcnsc.NewZCNSmartContract()}
+	smartcontract.ContractMap[minersc.ADDRESS] = &recSC{minersc.NewMinerSmartContract()}
 	st := NewState(env, u, init, nil)
+	mgn := &minersc.GlobalNode{
+		MaxN: 7, MinN: 3, MaxS: 5, MinS: 1, MaxDelegates: 200,
+		TPercent: 0.66, KPercent: 0.75, XPercent: 0.7,
+		MaxStake: 1e13, MinStake: 1, MinStakePerDelegate: 1,
+		RewardRate: 1, ShareRatio: 0.5, BlockReward: 1e9, MaxCharge: 0.5,
+		Epoch: 1000000, RewardDeclineRate: 0.1,
+		NumMinerDelegatesRewarded: 10, NumShardersRewarded: 1, NumSharderDelegatesRewarded: 5,
+		RewardRoundFrequency: 250, OwnerId: RealOwner, CooldownPeriod: 100,
+		Cost: map[string]int{"add_miner": 361, "add_sharder": 331, "update_settings": 137},
+	}
+	if _, err := st.MPT.Insert(util.Path(encryption.Hash(minersc.GlobalNodeKey)), mgn); err != nil {
+		panic(err)
+	}
+	// a miner and a sharder with empty stake pools: targets of the real minersc addToDelegatePool
+	pre := sc.NewCtx(st.MPT, 1, sc.Txn(encryption.Hash("verif provider setup"), RealOwner, minersc.ADDRESS, 0, 0))
+	for i, nt := range []minersc.NodeType{minersc.NodeTypeMiner, minersc.NodeTypeSharder} {
+		mn := minersc.NewMinerNode()
+		mn.ID = ProviderID(i)
+		mn.ProviderType = []spenum.Provider{spenum.Miner, spenum.Sharder}[i]
+		mn.NodeType = nt
+		mn.StakePool = stakepool.NewStakePool()
+		mn.StakePool.Minter = cstate.MinterMiner
+		mn.StakePool.Settings.DelegateWallet = AccountID(FirstUser + 7)
+		mn.StakePool.Settings.MaxNumDelegates = 10
+		mn.StakePool.Settings.ServiceChargeRatio = 0.1
+		if _, err := pre.InsertTrieNode(mn.GetKey(), mn); err != nil {
+			panic(err)
+		}
+	}
 	setup := sc.NewCtx(st.MPT, 1, sc.Txn(encryption.Hash("verif real setup"), RealOwner, faucetsc.ADDRESS, 0, 0))
 	fgn := &faucetsc.GlobalNode{ID: faucetsc.ADDRESS, FaucetConfig: &faucetsc.FaucetConfig{PourAmount: 10, MaxPourAmount: 100,
 		PeriodicLimit: 250, GlobalLimit: 600, IndividualReset: 5 * time.Second, GlobalReset: 20 * time.Second,
@@ -742,4 +811,142 @@ func NewRealState(env *Env, u *Universe, init []Acct) *State {
 		panic(err)
 	}
 	return st
+}
+
+// ---------- block mode: the real block.ComputeState ----------
+
+// blockChain is the block.Chainer handed to the real (*Block).ComputeState: the real chain.Chain
+// (real UpdateState) over an in-memory node DB and one StateCache.
+type blockChain struct {
+	*chain.Chain
+	db util.NodeDB
+	sc *statecache.StateCache
+}
+
+func (c *blockChain) GetStateDB() util.NodeDB                                          { return c.db }
+func (c *blockChain) GetStateCache() *statecache.StateCache                            { return c.sc }
+func (c *blockChain) GetPreviousBlock(_ context.Context, b *block.Block) *block.Block { return b.PrevBlock }
+func (c *blockChain) GetBlockStateChange(*block.Block) error                           { return errors.New("not available") }
+func (c *blockChain) GetEventDb() *event.EventDb                                       { return nil }
+func (c *blockChain) ComputeState(ctx context.Context, pb *block.Block, w ...chan struct{}) error {
+	return pb.ComputeState(ctx, c, w...)
+}
+
+// BlockRead: key read through the caches vs straight from the block's trie.
+type BlockRead struct {
+	Where string // "query on block r" | "txn i (round r, attempt k)"
+	Key   int
+	Seen  *int64
+	Trie  *int64
+}
+
+type BlocksResult struct {
+	Reads       []BlockRead
+	Interrupted int    // first attempts that ended StateCancelled
+	Failed      string // a block whose final attempt did not compute (history stops there)
+	Blocks      int
+}
+
+// RunBlocks groups the history by round into blocks and executes each with the real
+// block.ComputeState: a block holding an armed flaky call is interrupted (StateCancelled) at that
+// call on the first attempt and computed again.  After every computed block each cacheable key is
+// read like a query on that block (QueryBlockCache) and from the block's trie.
+func RunBlocks(env *Env, init []Acct, txns []Txn) (res BlocksResult) {
+	sc.Init()
+	bcn := &blockChain{Chain: env.C, db: util.NewMemoryNodeDB(), sc: statecache.NewStateCache()}
+	b0 := &block.Block{}
+	b0.Hash = encryption.Hash("verif block mode genesis")
+	mpt := util.NewMerklePatriciaTrie(bcn.db, 0, nil, statecache.NewEmpty())
+	for _, a := range init {
+		st := &state.State{}
+		_ = st.SetTxnHash(GenesisStamp)
+		st.Balance, st.Nonce = currency.Coin(a.Bal), a.Nonce
+		if _, err := mpt.Insert(util.Path(AccountID(a.ID)), st); err != nil {
+			panic(err)
+		}
+	}
+	b0.ClientState = mpt
+	b0.ClientStateHash = mpt.GetRoot()
+	b0.SetStateStatus(block.StateSuccessful)
+	var trace []*Recorded
+	Trace = &trace
+	defer func() { Trace = nil }()
+	prev := b0
+	for i := 0; i < len(txns); {
+		j := i
+		for j < len(txns) && txns[j].Round == txns[i].Round {
+			j++
+		}
+		b := &block.Block{}
+		b.Round = txns[i].Round
+		b.Hash = encryption.Hash(fmt.Sprintf("verif block %d", b.Round))
+		b.PrevHash = prev.Hash
+		b.SetPreviousBlock(prev)
+		for k := i; k < j; k++ {
+			b.Txns = append(b.Txns, BuildTxn(k, txns[k]))
+		}
+		// the state hash the block announces: a dry run on a scratch cache (nothing armed)
+		scratch := &blockChain{Chain: env.C, db: bcn.db, sc: statecache.NewStateCache()}
+		dry := block.CreateStateWithPreviousBlock(prev, bcn.db, b.Round)
+		dbc := statecache.NewBlockCache(scratch.sc, statecache.Block{Round: b.Round, Hash: "scratch " + b.Hash})
+		ok := true
+		for k := i; k < j; k++ {
+			if _, err := env.C.UpdateState(context.Background(), b, dry, BuildTxn(k, txns[k]), dbc); err != nil {
+				res.Failed = fmt.Sprintf("dry run of txn %d: %v", k, err)
+				ok = false
+				break
+			}
+		}
+		if !ok {
+			return res
+		}
+		b.ClientStateHash = dry.GetRoot()
+		mark := len(trace)
+		for k := i; k < j; k++ {
+			if txns[k].Type == transaction.TxnTypeSmartContract && txns[k].Script.Mode == "flaky" {
+				flakyArmed[TxnHash(k)] = true
+			}
+		}
+		attempt := 1
+		err := b.ComputeState(context.Background(), bcn)
+		if err != nil && !b.IsStateComputed() && (err == transaction.ErrSmartContractContext) {
+			res.Interrupted++
+			attempt = 2
+			err = b.ComputeState(context.Background(), bcn)
+		}
+		for k := range flakyArmed {
+			delete(flakyArmed, k)
+		}
+		if err != nil || !b.IsStateComputed() {
+			res.Failed = fmt.Sprintf("block of round %d: %v", b.Round, err)
+			return res
+		}
+		res.Blocks++
+		for _, rec := range trace[mark:] {
+			for _, rd := range rec.Reads {
+				res.Reads = append(res.Reads, BlockRead{fmt.Sprintf("a call in the block of round %d (%d attempt(s))", b.Round, attempt), rd.Key, rd.Seen, rd.Trie})
+			}
+		}
+		// a query on the computed block
+		qbc := statecache.NewQueryBlockCache(bcn.sc, b.Hash)
+		tbc := statecache.NewTransactionCache(qbc)
+		qctx := cstate.NewStateContext(b, chain.CreateTxnMPT(b.ClientState, tbc), BuildTxn(399, Txn{From: FirstUser}), nil, nil, nil, nil, nil, nil)
+		for key := CacheableFrom; key < CacheableFrom+3; key++ {
+			rd := BlockRead{Where: fmt.Sprintf("query on the block of round %d", b.Round), Key: key}
+			v := &CNode{}
+			if err := qctx.GetTrieNode(NodeKey(key), v); err == nil {
+				x := v.V
+				rd.Seen = &x
+			}
+			tv := &NodeVal{}
+			if err := b.ClientState.GetNodeValue(util.Path(encryption.Hash(NodeKey(key))), tv); err == nil {
+				x := tv.V
+				rd.Trie = &x
+			}
+			res.Reads = append(res.Reads, rd)
+		}
+		prev = b
+		i = j
+	}
+	return res
 }
